@@ -13,6 +13,14 @@ from .expr import (BoundMethod, BoundBuiltin, SuperProxy, LambdaV, GenV, PyDict,
 from . import source
 
 
+class ClassDep(object):
+    """a class attribute whose value depends on the dynamic class of `obj`"""
+
+    def __init__(self, obj, vals):
+        self.obj = obj
+        self.vals = vals
+
+
 class EngineCallable(object):
     """engine-level callable: fn(ex, st, args, kwargs, fr) -> iterable of (st, SV|Raised)"""
 
@@ -134,8 +142,15 @@ class CallMixin(object):
             yield self.read_field(st, obj, attr)
             return
         if raw is not None:
-            # plain class attribute (constant)
-            yield st, mk(raw)
+            # plain class attribute (constant); may differ between the subclasses of the static class
+            vals = {}
+            for n in self.world.subclasses(cname):
+                c, r = self.class_lookup(n, attr)
+                vals[n] = r
+            if all(v is raw or v == raw for v in vals.values()):
+                yield st, mk(raw)
+            else:
+                yield st, mk(ClassDep(obj, vals))
             return
         # __getattr__ fallback
         gcls, g = self.class_lookup(cname, '__getattr__')
@@ -156,7 +171,7 @@ class CallMixin(object):
                     # overridden method: allowed only through an interface contract; recorded for the call site
                     self.notes.append('dynamic dispatch: %s.%s overridden in %s' % (cname, attr, n))
                     continue
-                raise OutOfReach('class attribute %s differs between %s and %s' % (attr, cname, n))
+                # plain class attributes are resolved per dynamic class (ClassDep)
 
     def read_field(self, st, obj, attr):
         cname = obj.ty.args[0]
@@ -408,8 +423,9 @@ class CallMixin(object):
         contract = self.world.contracts.get(key)
         # dynamic dispatch: if the receiver's static class has subclasses overriding this method, the call must
         # go through an interface contract
+        is_own_self = bool(args) and not args[0].is_py and args[0].term is not None and str(args[0].term) == 'p.self'
         if args and not args[0].is_py and args[0].ty.kind == 'obj' and defcls is not None \
-                and args[0].ty.args[0] in self.world.classes and not getattr(self, 'exact_self', False):
+                and args[0].ty.args[0] in self.world.classes and not (getattr(self, 'exact_self', False) and is_own_self):
             over = self.overriders(args[0].ty.args[0], fn)
             if over and (contract is None or not contract.interface):
                 if not (len(self.call_stack) and self.call_stack[-1][1] is args[0] and False):
